@@ -18,18 +18,18 @@ use std::path::PathBuf;
 use std::process::{Command, Stdio};
 use std::time::{Duration, Instant};
 
-struct Out {
-    status: Option<i32>,
-    stdout: String,
-    stderr: String,
-    timed_out: bool,
+pub struct Out {
+    pub status: Option<i32>,
+    pub stdout: String,
+    pub stderr: String,
+    pub timed_out: bool,
 }
 
 fn cli() -> PathBuf {
     PathBuf::from(std::env::var("VERIF_CLI").unwrap_or_else(|_| machinery("VERIF_CLI is not set (run through ./check)")))
 }
 
-fn run_cli(args: &[String], secs: u64) -> Out {
+pub fn run_cli(args: &[String], secs: u64) -> Out {
     let mut child = Command::new(cli())
         .args(args)
         .stdin(Stdio::null())
@@ -72,7 +72,7 @@ fn run_cli(args: &[String], secs: u64) -> Out {
     Out { status, stdout, stderr, timed_out }
 }
 
-fn sargs(v: &[&str]) -> Vec<String> {
+pub fn sargs(v: &[&str]) -> Vec<String> {
     v.iter().map(|s| s.to_string()).collect()
 }
 
